@@ -19,10 +19,12 @@ from .src import ExtractError, unparse, dotted, walk
 
 class Opaque(object):
     """an uninterpreted value, identified by canonical text."""
-    __slots__ = ("text",)
+    __slots__ = ("text", "base", "key")
 
-    def __init__(self, text):
+    def __init__(self, text, base=None, key=None):
         self.text = text
+        self.base = base
+        self.key = key
 
     def __repr__(self):
         return "<%s>" % self.text
@@ -196,7 +198,7 @@ class SymExec(object):
             if key in base:
                 return base[key]
         if isinstance(base, Opaque):
-            return Opaque("%s[%s]" % (base.text, self.text(key)))
+            return Opaque("%s[%s]" % (base.text, self.text(key)), base, key)
         if isinstance(base, sp.Basic):
             return Opaque("(%s)[%s]" % (base, self.text(key)))
         raise ExtractError("subscript of %r" % (base,))
@@ -279,8 +281,13 @@ class SymExec(object):
             return self.ev(n.body, st)
         if t is False:
             return self.ev(n.orelse, st)
-        # undecided conditional expression: keep both as a Piecewise-like opaque pair
-        return ("ifexp", self.text(self.ev(n.test, st)), self.ev(n.body, st), self.ev(n.orelse, st))
+        # undecided conditional expression: Piecewise on an uninterpreted boolean atom
+        a, b = self.ev(n.body, st), self.ev(n.orelse, st)
+        txt = self.text(self.ev(n.test, st))
+        try:
+            return sp.Piecewise((self.S(a), sp.Eq(self.sym("[" + txt + "]"), 1)), (self.S(b), True))
+        except ExtractError:
+            return Opaque("(%s if %s else %s)" % (self.text(a), txt, self.text(b)))
 
     def e_Compare(self, n, st):
         left = self.ev(n.left, st)
@@ -356,6 +363,14 @@ class SymExec(object):
     def e_Call(self, n, st):
         name = dotted(n.func)
         recv = None
+        if name == "sum" and len(n.args) == 1 and isinstance(n.args[0], (ast.GeneratorExp, ast.ListComp)) and len(n.args[0].generators) == 1:
+            g = n.args[0].generators[0]
+            it = self.ev(g.iter, st)
+            sub = st.fork()
+            self.bind_loop_target(g.target, sub)
+            elt = self.ev(n.args[0].elt, sub)
+            conds = [self.text(self.ev(c, sub)) for c in g.ifs]
+            return self.sym("SUM{%s : %s in %s%s}" % (self.text(elt), unparse(g.target), self.text(it), (" if " + " and ".join(conds)) if conds else ""))
         if name is None and isinstance(n.func, ast.Attribute):
             recv = self.ev(n.func.value, st)
             name = "?." + n.func.attr
@@ -435,7 +450,7 @@ class SymExec(object):
                           ", ".join([self.text(a) for a in args] + ["%s=%s" % (k, self.text(v)) for k, v in kwargs.items()]))
         if dotted(n.func) and recv is not None and isinstance(recv, Opaque):
             txt = "%s.%s(%s)" % (recv.text, meth, txt.split("(", 1)[1][:-1])
-        st.events.append(("call", txt, (name, args, kwargs), getattr(n, "lineno", 0)))
+        st.events.append(("call", txt, (name, args, kwargs), getattr(n, "lineno", 0), tuple(l[1] for l in st.loops)))
         return Opaque(txt)
 
     def call_inline(self, fn, args, kwargs, st, node):
@@ -623,6 +638,7 @@ class SymExec(object):
                     s0.done = False
             return states
         self.bind_loop_target(s.target, st)
+        st.events.append(("loop", tgt_text, self.text(it), s.lineno))
         st.loops.append((tgt_text, self.text(it), declared))
         outs = self.block(s.body, [st])
         for o in outs:
@@ -664,7 +680,7 @@ class SymExec(object):
                     base[self.ev(t.slice, st)] = v
                     return
             txt = self.text(self.ev(t, st))
-            st.events.append(("store", txt, v, getattr(stmt, "lineno", 0)))
+            st.events.append(("store", txt, v, getattr(stmt, "lineno", 0), tuple(l[1] for l in st.loops)))
             return
         raise ExtractError("unsupported assignment target %s" % unparse(t))
 
